@@ -42,8 +42,11 @@ def run_property(pid, sids):
         lines = [l for l in o.splitlines() if l.startswith(('VIOLATION', 'UNDECIDED', 'KNOWN-FINDING')) or ' -> ' in l]
         head = sh('git -C /repo rev-parse --short HEAD')[1].strip()
         meta['recheck'] = {'applies': True, 'patch': os.path.basename(patch), 'repo_head': head, 'exit': rc, 'lines': lines[:8], 'wall_s': round(time.time() - t0, 1),
-                           'outcome': 'VIOLATION' if rc == 1 else ('UNDECIDED' if rc == 2 else 'PASS'), 'mode': 'scratch copy'}
-        meta['detected'] = (rc == 1)
+                           'mode': 'scratch copy'}
+        # a detection needs the VIOLATION line, not just the exit status (a crash of the machinery must not count)
+        has_violation = any(l.startswith('VIOLATION property=%s ' % pid) for l in lines)
+        meta['recheck']['outcome'] = 'VIOLATION' if (rc == 1 and has_violation) else ('UNDECIDED' if rc == 2 else ('PASS' if rc == 0 else 'BROKEN-CHECK rc=%d' % rc))
+        meta['detected'] = (rc == 1 and has_violation)
         json.dump(meta, open(mp, 'w'), indent=1)
         out.append((sid, meta['recheck']['outcome'] + ' ' + (lines[0][:160] if lines else '')))
         print(sid, out[-1][1], flush=True)
